@@ -150,6 +150,7 @@ pub fn c04(tier: &str, seed: u64) -> Check {
         spaces.push(c04_space::<WU>(5, 1));
     }
     spaces.push(crate::props::fam::c04_c06_family("bfs", thorough));
+    spaces.push(crate::props::large::trav_big("bfs", thorough));
     let report = super::report(
         "C04",
         tier,
@@ -304,6 +305,7 @@ pub fn c06(tier: &str, seed: u64) -> Check {
         spaces.push(c06_space::<WU>(5, 1));
     }
     spaces.push(crate::props::fam::c04_c06_family("dfs", thorough));
+    spaces.push(crate::props::large::trav_big("dfs", thorough));
     let report = super::report(
         "C06",
         tier,
@@ -320,9 +322,19 @@ pub fn c06(tier: &str, seed: u64) -> Check {
 pub fn tarjan_check<R: Rep>(abs: &Abs, d: &R, ctx: &mut Ctx) {
     ctx.exec();
     let det = || json!({"rep": R::NAME, "digraph": abs.arcs_json()});
-    match guarded(|| Tarjan::new(d).components().clone()) {
+    // components() twice on one object: the answer is a property of the digraph, not of the call count
+    match guarded(|| {
+        let mut t = Tarjan::new(d);
+        let first = t.components().clone();
+        let second = t.components().clone();
+        (first, second)
+    }) {
         Err(e) => ctx.fail(format!("Tarjan over {} panicked: {e}", R::NAME), det()),
-        Ok(comps) => {
+        Ok((comps, second)) => {
+            if second != comps {
+                ctx.fail(format!("Tarjan::components() called twice on one object: first {comps:?}, then {second:?}"), det());
+                return;
+            }
             let want = abs.scc();
             let got: BTreeSet<BTreeSet<usize>> = comps.iter().cloned().collect();
             let total: usize = comps.iter().map(BTreeSet::len).sum();
@@ -401,6 +413,7 @@ pub fn c09(tier: &str, seed: u64) -> Check {
     spaces.push(c09_sparse(&[0, 2, 3, 7, 9], 4));
     spaces.push(c09_sparse(&[1, 4, 6], 3));
     spaces.push(crate::props::fam::c09_family(thorough));
+    spaces.push(crate::props::large::trav_big("tarjan", thorough));
     let report = super::report(
         "C09",
         tier,
@@ -490,9 +503,18 @@ pub fn johnson_check(abs: &Abs, ctx: &mut Ctx) {
         let Some(d) = mkd::<AM>(abs, ctx) else { return };
         ctx.exec();
         let det = || json!({"digraph": abs.arcs_json()});
-        match guarded(|| Johnson75::new(&d).circuits()) {
+        match guarded(|| {
+            let mut j = Johnson75::new(&d);
+            let first = j.circuits();
+            let second = j.circuits();
+            (first, second)
+        }) {
             Err(e) => ctx.fail(format!("Johnson75::circuits panicked: {e}"), det()),
-            Ok(got) => {
+            Ok((got, second)) => {
+                if second != got {
+                    ctx.fail(format!("Johnson75::circuits() called twice on one object: first {got:?}, then {second:?}"), det());
+                    return;
+                }
                 let mut want = abs.circuits();
                 want.sort();
                 let mut g = got.clone();
@@ -532,6 +554,7 @@ pub fn c10(tier: &str, seed: u64) -> Check {
         spaces.push(c10_space(6, 9));
     }
     spaces.push(crate::props::fam::c10_family(thorough));
+    spaces.push(crate::props::large::trav_big("johnson", thorough));
     let report = super::report(
         "C10",
         tier,
